@@ -484,7 +484,7 @@ fn main() {
     }
     let mut rng = Rng::new(seed_from_env());
     let langs: Vec<String> = if only.is_empty() { zoo::list() } else { only };
-    let docs_per_lang = if thorough { 120 } else { 30 };
+    let docs_per_lang = if thorough { 120 } else { 16 };
     let mut case_no = 0usize;
     for id in langs {
         let k = match get_lang(&id, &mut out, &mut loaded) {
@@ -517,7 +517,8 @@ fn main() {
                     .map(|_| if !bounds.is_empty() && rng.chance(2, 3) { *rng.pick(&bounds) } else { rng.below(n + 1) })
                     .collect();
                 cuts.sort();
-                let ranges: Vec<(usize, usize)> = cuts.chunks(2).filter(|c| c.len() == 2).map(|c| (c[0], c[1])).collect();
+                // (empty ranges and ranges beyond EOF make the lexer read synthesized NULs: C13's subject)
+                let ranges: Vec<(usize, usize)> = cuts.chunks(2).filter(|c| c.len() == 2 && c[0] < c[1]).map(|c| (c[0], c[1])).collect();
                 case_no += 1;
                 emit_case(&mut out, &mut st, &format!("{id}-{case_no}"), lc, &mut parser, &text, &[], &ranges, "included-ranges");
             }
